@@ -402,4 +402,30 @@ def fileControl : List SField := [
   { name := "reserved", start := 65, shift := [], width := 15, conv := .alpha, pk := none, lenField := "" }
 ]
 
+def all : List (String × List SField) := [
+  ("FileHeader", fileHeader),
+  ("CashLetterHeader", cashLetterHeader),
+  ("BundleHeader", bundleHeader),
+  ("CheckDetail", checkDetail),
+  ("CheckDetailAddendumA", checkDetailAddendumA),
+  ("CheckDetailAddendumB", checkDetailAddendumB),
+  ("CheckDetailAddendumC", checkDetailAddendumC),
+  ("ReturnDetail", returnDetail),
+  ("ReturnDetailAddendumA", returnDetailAddendumA),
+  ("ReturnDetailAddendumB", returnDetailAddendumB),
+  ("ReturnDetailAddendumC", returnDetailAddendumC),
+  ("ReturnDetailAddendumD", returnDetailAddendumD),
+  ("ImageViewDetail", imageViewDetail),
+  ("ImageViewData", imageViewData),
+  ("ImageViewAnalysis", imageViewAnalysis),
+  ("Credit", credit),
+  ("CreditItem", creditItem),
+  ("UserGeneral", userGeneral),
+  ("UserPayeeEndorsement", userPayeeEndorsement),
+  ("BundleControl", bundleControl),
+  ("RoutingNumberSummary", routingNumberSummary),
+  ("CashLetterControl", cashLetterControl),
+  ("FileControl", fileControl)
+]
+
 end Icl.Spec
